@@ -7,31 +7,36 @@ NOTE = ("Trusted: Lean 4.33 kernel (axioms audited on every run: propext, Classi
         "property's projection, sampling not proof); pest grammar model regenerated from /repo's .pest by gen/pest2lean.py on every run; f64 rounding, the regex "
         "crate, serde_json, pest's engine are modelled (DESIGN 3.6, 7).")
 P = {
- 'C01': ("theorem query_perm/C01_partial: for every query whose names/literals are escape-free and whose function calls are well-typed, and every document, the model's "
-         "result is a permutation of the RFC nodelist (multiset equality of (location,value)); C01_borrow/result_paths: every result is the node at its location. "
-         "C01_refuted: the full statement is false (escapes are never decoded; pinned by unit tests) - open known finding. Correspondence: real crate = model on "
-         "(address-derived location, value) multisets; search oracle Spec.query on an RFC parse independent of the pest model.", "5.1",
+ 'C01': ("theorems query_perm/C01_partial: for every query whose names/literals are escape-free and whose function calls are well-typed, and every document, the model's "
+         "result is a permutation of the RFC nodelist (multiset of (location,value)); C01_parsed: the same END TO END for every query STRING the parser model accepts that is "
+         "escape-free and of plain shape (typing discharged by parse_wellTyped); C01_borrow/result_paths: every result is the node at its location. C01_refuted: the full "
+         "statement is false (escapes are never decoded; pinned by unit tests) - open known finding. Correspondence: real crate = model on (address-derived location, value) "
+         "multisets, on parser ASTs and on programmatically built ASTs; search oracle Spec.query on an RFC parse independent of the pest model.", "5.1",
          "refinement proof Impl=Spec (mutual induction over AST and JSON) + differential correspondence"),
  'C02': ("C02_partial/query_ordered: list equality with the RFC order for every query without a multi-selector segment at top level (filters unconstrained); "
          "C02_refuted: selector-major union order (`$[*][0,1]`), pinned by index_unit_keys_test - open known finding, class = multi-selector segment receiving >= 2 nodes. "
          "Correspondence on ordered address-derived locations.", "5.2", "refinement proof (ordered) + kernel-checked refutation + correspondence"),
- 'C03': ("C03a_partial/result_paths: for documents with plain member names and normalized name selectors every reported path is Spec.npath of the node's location "
-         "and the node lives there; C03a_refuted (`$[\"a\"]` -> `$['\"a\"']`). Re-query round trip and path<->node bijection are checked by the correspondence "
-         "(every reported path is run again on the real crate).", "5.3", "pointer-invariant proof + refutation + correspondence incl. re-query"),
+ 'C03': ("C03a_partial/result_paths: for documents with plain member names and normalized name selectors every reported path is Spec.npath of the node's location and the "
+         "node lives there; C03a_refuted (`$[\"a\"]` -> `$['\"a\"']`). C03b_injective/C03b_decodable: for ALL locations (arbitrary member names) the Normalized Path determines "
+         "the node. C03c_ast: the AST of a Normalized Path, run as a query, returns exactly that node with that path. Re-query of every reported path on the real crate, "
+         "and path recomputation from address-derived locations, by correspondence.", "5.3", "pointer-invariant proof + refutation + correspondence incl. re-query"),
  'C04': ("cmpData_spec: the six operators on evaluated operands equal the RFC comparison (== and < primitive, others derived), eqJson_spec: JSON equality = RFC equality "
          "(numbers by exact value, containers structurally); derived-operator laws by rfl. Correspondence: operand-pair table x 6 operators x operand forms.", "5.4",
          "proof by case analysis + mutual induction on Json; exhaustive operand table"),
  'C05': ("flt_spec/C05_logical: truth value computed for a child = RFC truth value of the logical expression for all well-formed filters (any nesting); C05_children: a filter "
          "selector keeps exactly the children satisfying it, in order; existence independent of the value; $ denotes the root.", "5.5",
          "mutual induction over the filter AST + correspondence on formulas x valuations"),
- 'C06': ("Lexical layers proved on the grammar model REGENERATED from /repo's .pest on each run (int layer so far: wherever RFC int lexes, the rule accepts the same lexeme). "
-         "The full statement C06_statement is not proved; above the proved layers the property is decided by correspondence (real parser = model parser incl. AST) and "
-         "oracle search (ABNF recogniser + validity) over ABNF-derived sentences.", "5.6", "layered proof on translated grammar + ABNF-oracle differential search"),
- 'C07': ("As C06 in the other direction: the int rule accepts nothing but an RFC int lexeme (no blanks, leading zeros, -0). Full statement not proved; single-edit mutants of "
-         "valid sentences are classified by the ABNF+validity oracle and must be rejected by the real parser.", "5.7", "layered proof on translated grammar + mutant search"),
- 'C08': ("eval_never_err: evaluating a well-formed query never returns Err; slice loops are well-founded recursions (kernel-accepted termination), slice_iterations_bounded "
-         "<= len, slice_indices_in_bounds. Panics/aborts/timeouts of the real code are observed by isolated workers (overflow checks on): integer extremes in every "
-         "position, nesting ladders. Stack exhaustion on ~10^4 nested parentheses is an open known finding.", "5.8",
+ 'C06': ("On the grammar model REGENERATED from /repo's .pest on each run: the token rules int, number, string, member_name_shorthand, function_name accept every lexeme of "
+         "the RFC token grammar (RfcLex, transcribed from Appendix A: all number formats, both quote styles, all escapes incl. lower-case hex and surrogate pairs), in "
+         "every parsing context (PEG denotation framework). The full statement C06_statement is not proved; the segment/filter skeleton is decided by correspondence "
+         "(real parser = model parser) and oracle search (ABNF recogniser + validity) over ABNF-derived sentences.", "5.6", "layered proof on translated grammar + ABNF-oracle differential search"),
+ 'C07': ("Conversely the token rules accept NOTHING but RFC tokens (no blanks inside, leading zeros, -0, lone surrogates, bad escapes). For ALL strings and all pair "
+         "trees: C07_partial_typing (an accepted query is well-typed per RFC 2.4.3) and C07_partial_int_range (its selector/slice/singular-query integers are in the "
+         "I-JSON range). Full statement not proved; single-edit mutants of valid sentences are classified by the ABNF+validity oracle and must be rejected by the real parser.", "5.7", "layered proof on translated grammar + mutant search"),
+ 'C08': ("eval_never_err (and parsed_never_errs on strings); slice loops are well-founded recursions, slice_iterations_bounded <= len; slice_no_overflow/index_no_overflow: "
+         "with every i64 operation checked, no overflow for integers in the I-JSON range and lengths <= 2^62. Panics/aborts/timeouts of the real code are observed by "
+         "isolated workers (overflow checks on): integer extremes, programmatically built ASTs, nesting ladders. Open known findings: stack exhaustion at ~10^4 nested "
+         "parentheses; exponential backtracking on nested function calls with an unparsable innermost argument.", "5.8",
          "totality + invariants in Lean; runtime faults by isolated-worker correspondence"),
  'C09': ("walk_spec/put_get/frame: lens laws of reference/reference_mut over name/index steps for all documents, step lists and values; the string->steps link (parser on "
          "Normalized Paths) is carried by correspondence on the Normalized Path of every node of generated documents.", "5.9", "structural induction (lens laws) + correspondence"),
